@@ -137,9 +137,12 @@ def cases(rng, quick, gr):
         yield {"tag": "array-number-like-names", "text": HDR + decl + "float array A[2, 2] =\n    %s, 1.5\n    %s, -%s\nint array B =\n    %s, 2, -%s\ncomplex array C =\n    1j, %s\n    2*%s, %s\nOp(A, B, C, A[0], A[2], B[0], C[1], C[3]) | 0\n" % (a, b, a, c, c, d, d, a)}
         ty = rng.choice(["float", "complex", "int"])
         yield {"tag": "array-number-like-undeclared", "text": HDR + "%s array A =\n    1, %s\nOp(A) | 0\n" % (ty, a)}
+    # a scalar declaration of the bare type keyword "array" (the grammar admits it as a vartype): no scalar value is of that type
+    for init in ["3", "1", "True", "2.5", '"s"', "-2", "0", "2 * 3", "n"]:
+        yield {"tag": "scalar-of-bare-type-array", "text": HDR + "int n = 4\narray x = %s\nOp(x) | 0\n" % init}
     yield from int_from_float_cases(rng, quick)
     # wrong declared shape, ragged rows, transposed shape: must be refused
-    for _ in range(40 if quick else 1500):
+    for _ in range(120 if quick else 2500):
         r, c = rng.randint(1, 4), rng.randint(1, 4)
         ty = rng.choice(["int", "float", "complex"])
         kind = rng.choice(["wrong-shape", "ragged", "transposed", "ragged-divisible", "one-dim-shape", "ragged-fitting-shape", "ragged-fitting-shape"])
@@ -157,22 +160,26 @@ def cases(rng, quick, gr):
             t = "%s array A[%d, %d] =\n%s\n" % (ty, r, c, "\n".join(rows))
             yield {"tag": kind, "text": HDR + t + "Op(A) | 0\n"}
             continue
+        # (some of these arrays hold template parameters among their elements: the declared shape and the row lengths bind them too)
+        pp = ()
+        if r * c >= 2 and rng.random() < 0.5:
+            pp = tuple(rng.sample([(a, b) for a in range(r) for b in range(c)], rng.randint(1, min(3, r * c - 1))))
         if kind == "wrong-shape":
-            t = array_text(rng, ty, "A", r, c, (r + 1, c))
+            t = array_text(rng, ty, "A", r, c, rng.choice([(r + 1, c), (r, c + 1), (c + 1, r), (r * c, 1) if c > 1 else (r + 2, c), (1, r * c) if r > 1 else (r, c + 2)]), params=pp)
         elif kind == "transposed":
             if r == c:
                 continue
-            t = array_text(rng, ty, "A", r, c, (c, r))
+            t = array_text(rng, ty, "A", r, c, (c, r), params=pp)
         elif kind == "one-dim-shape":
-            t = array_text(rng, ty, "A", r, c, (r * c,))
+            t = array_text(rng, ty, "A", r, c, (r * c,), params=pp)
         elif kind == "ragged":
             if r < 2:
                 continue
-            t = array_text(rng, ty, "A", r, c, None, ragged=(rng.randrange(r), c + 1))
+            t = array_text(rng, ty, "A", r, c, None, ragged=(rng.randrange(r), c + 1), params=pp)
         else:
             # rows 3,1 -> total divisible by the number of rows
             t = "%s array A =\n    %s\n    %s\n" % (ty, ", ".join(elem(rng, ty) for _ in range(3)), elem(rng, ty))
-        yield {"tag": kind, "text": HDR + t + "Op(A) | 0\n"}
+        yield {"tag": kind + ("-with-parameters" if pp and kind in ("wrong-shape", "transposed", "one-dim-shape", "ragged") else ""), "text": HDR + t + "Op(A) | 0\n"}
     # template parameters at every subset of <= 3 positions
     for _ in range(60 if quick else 3000):
         r, c = rng.randint(1, 3), rng.randint(1, 3)
